@@ -87,6 +87,7 @@ def _scratch():
 # --------------------------------------------------------------------------- world
 
 WORDS = ["alpha", "beta", "gamma", "Package: x", "Version: 1.0-1", " continued", "ünï", "",
+         "form\x0cfeed", "nel\x85x", "ls\u2028ps\u2029", "fs\x1cgs\x1d",
          "Depends: a, b", "..", ". ", "1a", "0a", "3,4c", "d", "#c", "\t tab", "日本"]
 
 
@@ -505,7 +506,8 @@ def run_one(world, faults, log=None, out=None, transport="sim", judge=True):
     fetched = [(u[len(REMOTE):], o) for (u, o) in net.log]
     fired = []
     for s in plan.fired:
-        fired.append(("fs", s["kind"], s.get("mode", "")))
+        fired.append(("fs", s["kind"], s.get("mode", "") + ("-persistent" if s.get("persistent")
+                                                           else "")))
     for (u, k) in net.fired:
         site = "index" if u.endswith("Index") else "full" if u == REMOTE + ".gz" else "patch"
         fired.append((site, k, ""))
@@ -696,6 +698,8 @@ def enumerate_faults(world, base):
     for i in widx:
         for mode in ("enospc", "enospc_partial", "eio"):
             fl.append({"site": "fs", "kind": "write", "at": i, "mode": mode})
+        # the disk stays full: every later write and the final flush at close fail too
+        fl.append({"site": "fs", "kind": "write", "at": i, "mode": "enospc", "persistent": True})
     fl.append({"site": "fs", "kind": "flush_close", "at": 0})
     fl.append({"site": "fs", "kind": "rename", "at": 0, "mode": "exdev"})
     fl.append({"site": "fs", "kind": "rename", "at": 0, "mode": "eio"})
